@@ -299,6 +299,7 @@ Section FieldSem.
     else if named f "pow" then
       match vs, ex with
       | [v], [CZ 2%Z] => kmul v v
+      | [v], [CF 2%Z] => kmul v v
       | [v], [CHalf] => ksqrt v
       | _, _ => other f vs ex kw
       end
